@@ -933,6 +933,42 @@ func streamTreeFile(r *Run) {
 		}
 		c.mixedOps(n, g, i%3 == 0)
 		c.reopen()
+		// sessions (open … close) that do ONE kind of thing only: whatever the tree persists lazily
+		// ("dirty" marks, cached counters, headers) must be written for every kind of change
+		switch i % 5 {
+		case 0:
+			for j := 0; j < 3; j++ { // thin the leaves (often without freeing a page), one session each
+				ts := c.threshold()
+				if j == 0 { // just above the few smallest values: some keys go, no leaf empties
+					vals := make([]uint64, 0, len(c.ref))
+					for _, v := range c.ref {
+						vals = append(vals, v)
+					}
+					sort.Slice(vals, func(a, b int) bool { return vals[a] < vals[b] })
+					if len(vals) > 3 {
+						ts = vals[2] + 1
+					}
+				}
+				c.deleteBelow(ts)
+				if j < 2 {
+					c.reopen()
+				}
+			}
+		case 1:
+			c.iterate([]uint64{1, 2, 3}[r.Rng.Intn(3)], r.Rng.Uint64()) // rewrite values in place
+		case 2:
+			if n := len(c.usedList); n > 0 { // overwrite existing keys only: no key is added
+				for j := 0; j < 5; j++ {
+					c.set(c.usedList[r.Rng.Intn(n)], c.value())
+				}
+			}
+		case 3:
+			c.sampleGets(5) // reads only
+		default:
+			c.set(g.key(c), c.value())
+		}
+		c.reopen()
+		c.sweep(true)
 		c.mixedOps(60, g, false)
 		if c.reopened > 0 && c.recycled {
 			c.r.Count("case_reopen_and_page_reuse")
